@@ -82,7 +82,11 @@ fn tail() -> BoxedStrategy<String> {
 }
 
 fn short_tail() -> BoxedStrategy<String> {
-    (vec(component(), 0..4), component(), prop::sample::select(vec!["tex", "mdl", "exh", "exd", "dat", "x", "sklb"])).prop_map(|(dirs, name, ext)| {
+    // one file name in three comes from a small pool, so that several folders of an archive hold a file of the same name (and
+    // one folder name in five likewise, so that several files share a folder)
+    let dir = prop_oneof![4 => component(), 1 => prop::sample::select(vec!["level", "common", "twn", "0001"]).prop_map(|s| s.to_string())];
+    let name = prop_oneof![2 => component(), 1 => prop::sample::select(vec!["bg", "planmap", "0001", "list"]).prop_map(|s| s.to_string())];
+    (vec(dir, 0..4), name, prop::sample::select(vec!["tex", "mdl", "exh", "exd", "dat", "x", "sklb"])).prop_map(|(dirs, name, ext)| {
         let mut s = String::new();
         for d in dirs {
             s.push_str(&d);
@@ -472,6 +476,10 @@ fn prop(c: &Case, ctx: &Ctx) -> PResult {
                 match want_rec {
                     Some(s) => {
                         ctx.class("answer:present");
+                        let fname = |p: &str| p[p.rfind('/').map(|i| i + 1).unwrap_or(0)..].to_string();
+                        if model.stored.iter().any(|o| o.path != s.path && o.exp == s.exp && o.cat == s.cat && o.chunk == s.chunk && fname(&o.path) == fname(&s.path)) {
+                            ctx.class("hit:another-folder-of-the-chunk-holds-a-file-of-the-same-name");
+                        }
                         ctx.classf(format!("cat:{:02x}", s.cat));
                         ctx.classf(format!("repo:{}", sqpack::repo_name(s.exp)));
                         ctx.classf(format!("chunk:{}", s.chunk));
